@@ -40,6 +40,8 @@ pub enum K {
     PageFault,
     /// pushfq emulated in single-step mode (value pushed in `val`)
     Pushfq,
+    /// popfq intercepted in single-step mode (operand in `val`; not executed when `capture_popfq` is set)
+    Popfq,
 }
 
 #[derive(Clone, Copy, Debug)]
@@ -107,6 +109,10 @@ pub struct Regs {
     /// mirror IF into the crate's cfg-gated RFLAGS overlay
     pub mirror_if: bool,
     pub swapgs_count: u64,
+    /// single-step mode: value an emulated pushfq pushes (None = the real flags with the emulated IF)
+    pub rflags_override: Option<u64>,
+    /// single-step mode: intercept popfq, record its operand and skip it (the operand becomes the next override)
+    pub capture_popfq: bool,
 }
 
 pub static mut REGS: Regs = Regs {
@@ -125,6 +131,8 @@ pub static mut REGS: Regs = Regs {
     last_in_value: 0,
     mirror_if: false,
     swapgs_count: 0,
+    rflags_override: None,
+    capture_popfq: false,
 };
 
 pub fn regs() -> &'static mut Regs {
@@ -597,12 +605,32 @@ extern "C" fn handler(sig: i32, info: *mut libc::siginfo_t, uc: *mut libc::c_voi
             // emulate every pushfq that is about to execute (it cannot be trapped otherwise)
             loop {
                 let rip = ctx.rip();
-                if *(rip as *const u8) != 0x9c {
+                let opc = *(rip as *const u8);
+                if opc == 0x9d && regs().capture_popfq {
+                    // popfq: record the operand, do not load it into the real RFLAGS
+                    let r = regs();
+                    let rsp = ctx.get(4);
+                    let v = core::ptr::read_unaligned(rsp as *const u64);
+                    ctx.set(4, rsp + 8);
+                    ctx.set_rip(rip + 1);
+                    r.rflags_override = Some(v);
+                    let mut ev = Event::empty();
+                    ev.kind = K::Popfq;
+                    ev.val = v;
+                    ev.rip = rip;
+                    ev.len = 1;
+                    push_event(ev);
+                    continue;
+                }
+                if opc != 0x9c {
                     break;
                 }
                 let r = regs();
                 let mut fl = (*efl as u64) & !0x100;
                 fl = (fl & !0x200) | ((r.iflag as u64) << 9);
+                if let Some(v) = r.rflags_override {
+                    fl = v;
+                }
                 let rsp = ctx.get(4) - 8;
                 core::ptr::write_unaligned(rsp as *mut u64, fl);
                 ctx.set(4, rsp);
